@@ -265,6 +265,37 @@ def run(ctx):
         res.ob(why is None, sig=("Universe(vertices=nested)", form))
         if why:
             res.violation("I2-STEP", Q["Universe(vertices=)"], f"arg={form},nested-universes", f"Universe(vertices=[u2, v, u2]) where u2 and v are universes, given as {form}: {why}")
+    # two objects constructed from one and the same (duplicate-free) list object, then a membership call on one of them: the other
+    # object's memberships are its own
+    for cls_ in ("Vertex", "SymVert"):
+        for call in ("u2.add_vertex(n1)", "n1.add_to_universe(u2)", "u.remove_vertex(n1)"):
+            try:
+                p = Pre(h, "Vertex", (), False, segs=False)
+                src = Seq([p.O["u"]], "list")
+                o1, o2 = h.call(h.cls(cls_), universes=src), h.call(h.cls(cls_), universes=src)
+                if o1.kind != "return" or o2.kind != "return":
+                    raise Unknown(f"{cls_}(universes=[u]) gives {o1!r} / {o2!r}")
+                n1, n2 = o1.value, o2.value
+                n1.name, n2.name = "n1", "n2"
+                if call == "u2.add_vertex(n1)":
+                    out = h.call(h.I.getattr(p.O["u2"], "add_vertex"), n1)
+                elif call == "n1.add_to_universe(u2)":
+                    out = h.call(h.I.getattr(p.O["u2"], "add_vertex"), n1)
+                    out = h.call(h.I.getattr(n1, "add_to_universe"), p.O["u2"])
+                else:
+                    out = h.call(h.I.getattr(p.O["u"], "remove_vertex"), n1)
+                got = h.getattr(n2, "universes")
+            except Unknown as u:
+                res.ob(False)
+                res.undecide(f"two {cls_} objects built from one universes= list, then {call}: {u}")
+                continue
+            m += 1
+            ok = out.kind == "return" and got.kind == "return" and names(got.value) == ["u"] and "n2" in names(p.O["u"].fields["_vertices"])
+            res.ob(ok, sig=("shared-universes-argument", cls_, call))
+            if not ok:
+                res.violation("I2-STEP", Q["Vertex(universes=)"], "one-list-object-passed-to-two-constructors", f"src = [u]; n1 = {cls_}(universes=src); n2 = {cls_}(universes=src); {call} -> {out!r}; afterwards n2.universes reads "
+                              f"{names(got.value) if got.kind == 'return' else got!r} and u.vertices {names(p.O['u'].fields['_vertices'])}: n2 is a member of u only and was not touched",
+                              replay=f"from edgegraph.structure import *\nu, u2 = Universe(), Universe()\nsrc = [u]\nn1 = {cls_}(universes=src); n2 = {cls_}(universes=src)\n{call}\nprint(n2.universes == [u], n2 in u.vertices, n2 in u2.vertices)")
     res.rule("I2-CONSTRUCT", m)
     from rules import hist
     hist.run(ctx, res, 'C02')       # composition: histories through the public API against the reference model (rules/hist.py)
